@@ -354,8 +354,15 @@ def judge(ctx: core.Ctx, case: dict[str, Any]) -> None:
         tag = case.get("aim", "generated")
         if prefix and culprit is not None and culprit.get("get"):
             culprit = dict(culprit, source=f"get_template({culprit['get']!r}) and its render")
+        mech = ""
+        if prefix:
+            # which mechanism: do the kept object's pinned globals now read as if it had been requested without any (a later load of the same
+            # name by a tag re-pinned them), or is it something else?
+            bare = [dict(p, globals=None) for p in prefix]
+            same_as_unpinned = in_child(bare, case["probe"])["result"] == after["result"]
+            mech = ":pinned-globals-replaced-by-a-tag-load" if same_as_unpinned and any(p.get("globals") for p in prefix) else ":other"
         ctx.violation(
-            f"history-dependent:{tag}:{construct_of(case['probe']['source'])}" if not prefix else f"history-dependent:{tag}",
+            f"history-dependent:{tag}:{construct_of(case['probe']['source'])}" if not prefix else f"history-dependent:{tag}{mech}",
             f"probe {case['probe']['source']!r:.200} with data {case['probe']['data']!r:.200} gives {alone['result']} alone but {after['result']} after "
             + (f"the single earlier render {culprit['source']!r:.200} with data {culprit['data']!r:.200} env {culprit.get('env')}" if culprit else f"a history of {len(case['history'])} renders"),
         )
